@@ -1,29 +1,62 @@
 import JL.Generated.Fns
 import JL.Lemmas.TieB
+import JL.Lemmas.TieLoops
 import JL.Tie.number_eq
 /-! tie: `deep_eq`, as translated from the crate's current source, is the model's function - for every input -/
 namespace JL.Tie
-open JL JL.Lemmas.TieB
+open JL JL.Lemmas.TieB JL.Lemmas.TieLoops
+set_option linter.unusedSimpArgs false  -- which of the listed facts are used depends on how the source is spelled
 
-/-- with enough fuel the translated recursion is the model's structural recursion -/
+/-- with enough fuel the translated recursion is the model's structural recursion.
+
+By the model's own case analysis on the two values (named constructors: the order of the `match` arms in the source is
+irrelevant). For two arrays / two objects the item-wise comparison - `all` over `zip`/over the entries, or a `for` loop with a
+flag, or a `for` loop that returns `false` at the first difference - is brought to `List.all` of the model's test by
+`rs_loop_all_mem` (`TieLoops`); its step equation is asked for the items that occur, where the induction hypothesis holds.
+The rest is a fact about the model (`deepEqList_eq`, `deepEqKvs_eq`) and a comparison of booleans by cases. -/
 theorem deep_eq_go : ∀ (fuel : Nat) (a b : Json), Json.depth a < fuel → Gen.deep_eq.go fuel a b = ArrOp.deepEq a b
   | 0, _, _, h => by omega
   | fuel + 1, a, b, h => by
-    cases a <;> cases b <;> simp only [Gen.deep_eq.go, ArrOp.deepEq, number_eq]
-    all_goals try (simp [rs, Json.beq]; done)
-    · rename_i x y
-      refine zip_all_tie _ x y (fun a ha b => ?_)
-      have := depth_le_depthList ha
-      simp only [Json.depth] at h
-      exact deep_eq_go fuel a b (by omega)
-    · rename_i x y
-      have e : Rs.eq (Rs.len x) (Rs.len y) = (x.length == y.length) := by simp [rs]
-      rw [e]; congr 1
-      refine kvs_all_tie _ y x (fun k a hk => ?_)
-      have := depth_le_depthKvs hk
-      simp only [Json.depth] at h
-      have ih := fun b => deep_eq_go fuel a b (by omega)
-      simp only [ih]
+    cases a with
+    | null => cases b <;> simp [Gen.deep_eq.go, ArrOp.deepEq, number_eq, rs, Json.beq]
+    | bool p => cases b <;> simp [Gen.deep_eq.go, ArrOp.deepEq, number_eq, rs, Json.beq]
+    | num n => cases b <;> simp [Gen.deep_eq.go, ArrOp.deepEq, number_eq, rs, Json.beq]
+    | str s => cases b <;> simp [Gen.deep_eq.go, ArrOp.deepEq, number_eq, rs, Json.beq]
+    | arr x =>
+        cases b with
+        | arr y =>
+            simp only [Json.depth] at h
+            simp only [Gen.deep_eq.go, ArrOp.deepEq, deepEqList_eq]
+            rs_loop_all_mem (fun p : Json × Json => ArrOp.deepEq p.1 p.2) false =>
+              intro ab hab
+              obtain ⟨a, b⟩ := ab
+              have ha : a ∈ x := (List.of_mem_zip hab).1
+              have := depth_le_depthList ha
+              have ih := deep_eq_go fuel a b (by omega)
+              cases hd : ArrOp.deepEq a b <;> simp [rs, ih, hd]
+            all_goals
+              cases h1 : (x.length == y.length) <;>
+              cases h2 : List.all (List.zip x y) (fun p => ArrOp.deepEq p.1 p.2) <;>
+              ((try simp only [rs]); (try simp only [h1, h2]); (try simp))
+        | _ => simp [Gen.deep_eq.go, ArrOp.deepEq, number_eq, rs, Json.beq]
+    | obj x =>
+        cases b with
+        | obj y =>
+            simp only [Json.depth] at h
+            simp only [Gen.deep_eq.go, ArrOp.deepEq, deepEqKvs_eq]
+            rs_loop_all_mem (kvOk y) false =>
+              intro p hp
+              obtain ⟨k, a⟩ := p
+              have := depth_le_depthKvs hp
+              have ih := fun b => deep_eq_go fuel a b (by omega)
+              cases hl : Json.lookup k y with
+              | none => simp [rs, kvOk, hl]
+              | some b => cases hd : ArrOp.deepEq a b <;> simp [rs, kvOk, hl, ih, hd]
+            all_goals
+              cases h1 : (x.length == y.length) <;>
+              cases h2 : List.all x (kvOk y) <;>
+              ((try simp only [rs]); (try simp only [h1, h2]); (try simp))
+        | _ => simp [Gen.deep_eq.go, ArrOp.deepEq, number_eq, rs, Json.beq]
 
 theorem deep_eq (a b : Json) : Gen.deep_eq a b = ArrOp.deepEq a b := by
   unfold Gen.deep_eq
